@@ -10,9 +10,13 @@ import (
 )
 
 var upperPool = []string{"Str", "ID", "X", "AWSRoleARNs", "Int32", "Name", "Spec", "Meta", "Value", "Kind", "URL", "TTL",
-	"Opts", "V2", "Data", "Labels", "A", "MaxAge", "HTTPPort", "Nested", "List", "Map", "Mode", "Expires", "B", "Cfg"}
+	"Opts", "V2", "Data", "Labels", "A", "MaxAge", "HTTPPort", "Nested", "List", "Map", "Mode", "Expires", "B", "Cfg",
+	"Count", "Provider"}
 var lowerPool = []string{"str", "id", "x", "lower_snake", "with2_digits3", "name", "max_age", "b", "foo", "bar",
-	"labels", "http_port", "value", "kind", "a", "created_at", "ttl", "data", "type", "range", "default", "key"}
+	"labels", "http_port", "value", "kind", "a", "created_at", "ttl", "data", "type", "range", "default", "key",
+	// names Terraform reserves at the top level of a resource: ordinary attribute names everywhere else, and nothing
+	// in the properties singles them out
+	"count", "provider", "lifecycle", "depends_on", "for_each", "connection"}
 
 var upperSeg = rapid.Custom(func(t *rapid.T) string {
 	return rapid.StringMatching(`[A-Z]{1,3}[a-z]{0,4}[0-9]{0,2}`).Draw(t, "useg")
